@@ -27,6 +27,31 @@ fn reprint(text: &str) -> Option<String> {
     Some(t.to_string())
 }
 
+// wrap some integer literals / constant keywords of a program text in parentheses (deterministic pseudo-random choice)
+fn paren_atoms(text: &str, salt: u64) -> String {
+    let src: &'static str = tj::leak(text);
+    let Ok(toks) = tokenizer::tokenize(None, src) else { return text.to_string() };
+    let mut out = String::new();
+    let mut pos = 0;
+    for (i, t) in toks.iter().enumerate() {
+        let (s, e) = (t.source_range.start, t.source_range.end);
+        out.push_str(&text[pos..s]);
+        let atom = matches!(t.variant, crate::token::Variant::IntegerLiteral(_) | crate::token::Variant::True | crate::token::Variant::False | crate::token::Variant::Integer
+            | crate::token::Variant::Boolean | crate::token::Variant::Type);
+        let pick = (i as u64).wrapping_mul(2654435761).wrapping_add(salt.wrapping_mul(40503)) % 3 == 0;
+        if atom && pick {
+            out.push('(');
+            out.push_str(&text[s..e]);
+            out.push(')');
+        } else {
+            out.push_str(&text[s..e]);
+        }
+        pos = e;
+    }
+    out.push_str(&text[pos..]);
+    out
+}
+
 fn same(a: &Value, b: &Value) -> bool {
     if a["accepted"] != b["accepted"] {
         return false;
@@ -61,6 +86,12 @@ pub fn case(line: &str) -> String {
     if let Some(p) = reprint(&base_text) {
         check("remove-redundant-parentheses", &p, &mut bad);
         n += 1;
+        // ... and redundant parentheses added around atoms of the minimal rendering (literals and constant keywords are
+        // expressions wherever they occur, so `2` may always be written `(2)`)
+        for variant in 0..3u64 {
+            check("add-redundant-parentheses", &paren_atoms(&p, variant + rec["t"].to_string().len() as u64), &mut bad);
+            n += 1;
+        }
     }
     for (i, r) in rec["rs"].as_array().unwrap().iter().enumerate() {
         let rule = r["rule"].as_str().unwrap();
